@@ -1885,7 +1885,10 @@ DIGIT_LIKE_CHARS = ['\u00b2', '\u00b3', '\u00b9', '\u2460', '\u2473', '\uff10', 
 DIGIT_LIKE = (DIGIT_LIKE_CHARS + [c * 2 for c in DIGIT_LIKE_CHARS[:12]] + ['1' + c for c in DIGIT_LIKE_CHARS[:16]]
               + [c + '1' for c in DIGIT_LIKE_CHARS[:16]] + ['\u00b9\u00b2', '\uff11\uff12\uff13', '\u0661\u0662\u0663', '"\u0663 + 1"', '"2**\u00b2"',
                                                           '-\u00b2', '"(\u2460)"', '\u00b2\u0663', '0\u00b2', '"\u00b2 "', '"1_\u0661"', '0x\uff11'])
-BAD_INTS = BAD_INTS + DIGIT_LIKE
+# characters that are significant for str.format / % formatting: an error message built by formatting must not choke on them
+FORMAT_BITS = ['{', '}', '{0}', '{x}', '{}', '{{', '%s', '%d', '%(x)s', '%']
+BAD_INTS = BAD_INTS + DIGIT_LIKE + ['(1}', '{1', '2}', '"{1 + 2"', '[1}', '"1 + {x}"', '{0}', '{}', '"{x}"', '%s', '"%d"', '"1 % s"', '"{"',
+                                    '"}"', '"{{1}}"', '"(1 + 2}}"', '"%(x)s"', "\"{'a': 1}['b']\"", '"1}{"']
 BAD_REGEXES = ["'('", "'[a'", "'*a'", "'a{2,1}'", "'(?P<n>a)(?P<n>b)'", "'\\'", "'(?z)'", "'a**'", "'(?<=a+)b'", "'[z-a]'", "'\\1'",
                "'(?i'", "')'", "'\\p{L}'", "'(?P<n'", "'(?P<1>a)'", "'\\g<1>'", "'a{99999999999}'", "'(?#'", "'\\N{no such}'",
                "'[[:alpha:]]'", "'(?P=zz)'", "'\\8'", "'x(?=y'", "'(' ", '@[UNDEFINED_SYMBOL]@', "''", '"\\"', "'(?-i)a'", "'((a)'",
@@ -1903,6 +1906,10 @@ BAD_REPLS = ["'\\6'", "'\\g<foo>'", "'\\q'", "'\\'", "'\\g<'", "'\\g<1'", "'\\40
 BAD_FNAMES = ["''", '""', "'.'", "'..'", "'a/../b'", "'a//b'", "'x/'", "' '", "'a b'", 'a' * 300, "'" + 'd/' * 200 + "x'", "'" + '\u00e9' * 200 + "'",
               '-', '--', "'-rel-act'", '@[UNDEFINED_SYMBOL]@', "'\\'", "'*'", "'a\tb'", '\x00', "'a\x00b'", "'\u2028'", 'in.txt/x', 'd', 'in.txt',
               "'~'", "'$HOME'", "'%s'", "'{}'", 'CON', "'\ud7ff'"]
+BAD_REGEXES += ["'{0}('", "'%s('", "'a{'", "'}('", "'{x}['", "'(?P<{0}>a)'", "'%(x)s)'", "'{{}}*+'", "'*{}'"]
+BAD_GLOBS += ["'{0}'", "'%s['", "'{x}[!'", "'}'", "'{'", "'%d*'"]
+BAD_REPLS += ["'{0}\\6'", "'%s\\q'", "'\\g<{0}>'", "'{x}\\'", "'\\g<%s>'", "'{\\400}'"]
+BAD_FNAMES += ["'{0}'", "'%s'", "'{x}/{y}'", "'{'", "'}'", "'%(x)s'", "'{0}" + 'a' * 300 + "'"]
 PHASE_HEADERS = ['[conf]', '[setup]', '[act]', '[before-assert]', '[assert]', '[cleanup]']
 BAD_HEADERS = ['[nope]', '[setup', 'setup]', '[ setup ]', '[[setup]]', '[]', '[Setup]', '[assert] x', '[before_assert]', '[cleanup]]',
                '[conf][setup]', '[\u00e9]', '[setup\t]', '[ ]', '[act] $ echo']
@@ -2290,6 +2297,18 @@ CORPUS_CASES = [
 ]
 
 
+def corpus_files():
+    """regression inputs stored as harness/corpus/C18/*.json: (name, text, expected finding, expected identifier or None)"""
+    d = os.path.join(os.path.dirname(os.path.abspath(__file__)), 'corpus', PROP)
+    out = []
+    if os.path.isdir(d):
+        for fn in sorted(os.listdir(d)):
+            if fn.endswith('.json'):
+                c = json.load(open(os.path.join(d, fn), encoding='utf-8'))
+                out.append(('file ' + c['name'], c['text'], c.get('finding'), c.get('expected_identifier')))
+    return out
+
+
 def run_one_fuzz(runner, text, res, label, offending=None):
     """-> (coq term or None, info, finding id or None)"""
     pr, to, d = runner.run_text(text, files=HOME_FILES, keep=True)
@@ -2373,6 +2392,18 @@ POSITIONS = {
         '[setup]\ndef text-transformer T = replace (a) {V}\n[act]\n$ echo a\n[assert]\nstdout -transformed-by T is-empty\n',
     ],
 }
+EVERY_PHASE = ['[setup]', '[before-assert]', '[assert]', '[cleanup]']
+EVERY_PHASE_POSITIONS = {
+    'regex': ["{PH}\nfile pp.txt = 'abc' -transformed-by replace {V} x\n",
+              "{PH}\nfile pp.txt = 'abc' -transformed-by filter contents matches {V}\n",
+              "{PH}\nfile pp.txt = 'abc' -transformed-by grep {V}\n",
+              "{PH}\ndef text-transformer TT = grep {V}\nfile pq.txt = 'abc' -transformed-by TT\n"],
+    'repl': ["{PH}\nfile pp.txt = 'abc' -transformed-by replace b {V}\n"],
+    'int': ["{PH}\nfile pp.txt = 'abc' -transformed-by filter -line-nums {V}\n",
+            "{PH}\nfile pp.txt = 'abc' -transformed-by filter line-num == {V}\n", '{PH}\ntimeout = {V}\n'],
+    'fname': ['{PH}\nfile {V}\n', '{PH}\ncopy -rel-home {V}\n', "{PH}\nfile pp.txt = -contents-of -rel-act {V}\n"],
+    'glob': ["{PH}\ndir pd = {\nfile a.txt\n}\ndef files-matcher FSM = every file : name {V}\n"],
+}
 DIRECTIVE_PHASES = ['[conf]', '[setup]', '[before-assert]', '[assert]', '[cleanup]']
 DIRECTIVE_VARIANTS = [('including', True), ('including inc.xly inc2.xly', True), ('including inc2.xly x y', True), ('including  ', True),
                       ('including inc2.xly', False), ('including no-such-file.xly', True), ("including 'unterminated", True)]
@@ -2421,6 +2452,31 @@ def systematic_cases(ctx):
                 sym = rng.choice(SDS_SYMBOLS)
                 out.append(('systematic %s, sandbox dependent' % role,
                             with_def(t, sym).replace('{V}', sandbox_dependent(v, sym, rng.chance(0.7))), None))
+    # the same families in instructions that exist in EVERY phase and apply the value there ([cleanup] has no step of its own for
+    # post-setup validation: its main step does it): constant, made sandbox dependent by a symbol reference, and as the file name of
+    # a path symbol in the sandbox that is then used as the value
+    k = 0
+    for role, bad in (('regex', BAD_REGEXES), ('int', BAD_INTS), ('glob', BAD_GLOBS), ('repl', BAD_REPLS), ('fname', BAD_FNAMES)):
+        for v in bad:
+            if '"' in v or '\n' in v or '\x00' in v or len(v) > 400:
+                continue
+            for t in (EVERY_PHASE_POSITIONS[role] if not ctx.quick else [EVERY_PHASE_POSITIONS[role][k % len(EVERY_PHASE_POSITIONS[role])]]):
+                for ph in (EVERY_PHASE if not ctx.quick else [EVERY_PHASE[k % 4], '[cleanup]'][:1 if k % 4 == 3 else 2]):
+                    k += 1
+                    form = k % 3 if not ctx.quick else rng.below(3)
+                    for f in ([0, 1, 2] if not ctx.quick else [form]):
+                        if f == 0:
+                            text = t.replace('{PH}', ph).replace('{V}', v.strip())
+                        elif f == 1:
+                            sym = SDS_SYMBOLS[k % len(SDS_SYMBOLS)]
+                            text = with_def(t.replace('{PH}', ph), sym).replace('{V}', sandbox_dependent(v, sym, k % 2 == 0))
+                        else:
+                            q = v.strip()
+                            if '/' in q or q in ("''", '""') or q.startswith('@['):
+                                continue
+                            text = '[setup]\ndef path BP = -rel-act %s\n' % q + t.replace('{PH}', ph if ph != '[setup]' else '').replace('{V}', '@[BP]@')
+                            text = text.replace('\n\n', '\n')
+                        out.append(('every-phase %s %s' % (role, ph), text, None))
     for ph in DIRECTIVE_PHASES:
         for line, is_error in DIRECTIVE_VARIANTS:
             for ending, tag in (('\n', 'last line'), ('', 'last line, no final newline'), ('\n# next line\n', 'followed by a line')):
@@ -2445,8 +2501,11 @@ def run_fuzz(ctx, res, runner):
         res.count('fuzz outcome: %s' % (o[1] or ('exception ' + o[2].__name__ if o[2] else 'timeout' if o[3] else 'no identifier')))
         return o
 
-    for name, text, expect in CORPUS_CASES:
-        one(text, 'corpus: ' + name)
+    for name, text, expect, ident in [c + (None,) for c in CORPUS_CASES] + corpus_files():
+        o = one(text, 'corpus: ' + name)
+        if ident is not None and o[1] != ident:
+            # a stored regression input no longer ends the way it did when it was stored: worth a look, but only P_C18 decides
+            res.count('corpus input with another outcome than stored: %s (%s, stored %s)' % (name, o[1], ident))
         if expect is not None and findings[-1] != expect:
             # a listed finding that no longer shows: not an error (it may have been repaired), but say so
             res.count('corpus finding not reproduced: ' + expect)
